@@ -993,8 +993,10 @@ class Evaluator:
         return self.binop(node.op, self.eval(node.left, env), self.eval(node.right, env), node)
 
     def binop(self, op, a, b, node):
-        if isinstance(op, ast.Mult) and isinstance(a, list) and const_int(b) is not None and not isinstance(b, Arr):
+        if isinstance(op, ast.Mult) and isinstance(a, (list, str, tuple)) and const_int(b) is not None and not isinstance(b, Arr):
             return a * const_int(b)
+        if isinstance(op, ast.Mult) and isinstance(b, (list, str, tuple)) and const_int(a) is not None and not isinstance(a, Arr):
+            return b * const_int(a)
         if isinstance(op, ast.Mod) and isinstance(a, str):
             vals = b if isinstance(b, tuple) else (b,)
             conv = []
